@@ -82,7 +82,7 @@ def enum_to_disc(ed: EnumDef, e):
 
 def enum_from_disc(ed: EnumDef, e):
     arms = " ".join(f"{d}u128 => {ed.name}::V{d:x}," for d in ed.discs)
-    return f"(match {e} {{ {arms} _ => panic!(\"harness: {{:#x}} is not a discriminant of {ed.name}\", {e}) }})"
+    return f"(match {e} {{ {arms} _ => panic!(\"harness: not a discriminant of {ed.name}\") }})"
 
 
 # ---------------------------------------------------------------------------------------------
@@ -235,6 +235,8 @@ def struct_decl(s: Struct, derives='', doc=False):
     if s.default is not None and s.default_form == 'const':
         cn = f"DV_{s.name.upper()}"
         # the constant has the primitive type the macro's `uN::new(..)` / `const X: uN = ..` expects
+        if doc:
+            lines.append("/// the user's default constant")
         lines.append(f"pub const {cn}: {prim(s.n)} = {default_lit(s)};")
     if doc:
         lines.append("/// documented struct")
@@ -335,6 +337,10 @@ def adapter(s: Struct):
                 chain.append(f".with_{f.name}({to_val(f, f'a[{k}]')})")
                 k += 1
         out.append(f"  fn build(&self, a: &[u128]) -> Option<u128> {{ let _ = a; Some(regmc::machine::to_bits(&{S}::builder(){''.join(chain)}.build())) }}")
+    if s.ctab:
+        statics, method = const_tables_code(s)
+        out.insert(0, statics)
+        out.append(method)
     if s.debug:
         out.append(f"  fn dbg(&self, ob: u128, alt: bool) -> Option<String> {{ let o: {S} = regmc::machine::from_bits(ob, {S}::ZERO); Some(if alt {{ format!(\"{{:#?}}\", o) }} else {{ format!(\"{{:?}}\", o) }}) }}")
         if s.twin:
@@ -344,6 +350,148 @@ def adapter(s: Struct):
             out.append(f"  fn dbg_twin(&self, v: &[u128], alt: bool) -> Option<String> {{ let o = twin::{S} {{ {', '.join(inits)} }}; Some(if alt {{ format!(\"{{:#?}}\", o) }} else {{ format!(\"{{:?}}\", o) }}) }}")
     out.append("}")
     return "\n".join(out)
+
+
+# ---- alphabets (same definitions as regmc::reference) --------------------------------------------
+def alpha(n):
+    m = mask(n)
+    a = [0, m] + [1 << k for k in range(n)] + [m & ~(1 << k) for k in range(n)]
+    a += [0xAAAAAAAAAAAAAAAAAAAAAAAAAAAAAAAA & m, 0x55555555555555555555555555555555 & m,
+          0x0123456789ABCDEFFEDCBA9876543210 & m, 0xFEDCBA98765432100123456789ABCDEF & m]
+    return list(dict.fromkeys(a))
+
+
+def small_alpha(w):
+    m = mask(w)
+    a = [0, m, 0xAAAAAAAAAAAAAAAAAAAAAAAAAAAAAAAA & m, 0x55555555555555555555555555555555 & m, 1 & m, (1 << (w - 1)) & m,
+         0x0123456789ABCDEFFEDCBA9876543210 & m]
+    return list(dict.fromkeys(a))
+
+
+def state_alpha(s: Struct):
+    a = alpha(s.n)
+    m = mask(s.n)
+    for f in s.fields:
+        cnt = f.arr[0] if f.arr else 1
+        for idx in sorted({0, cnt - 1}):
+            sh = idx * f.arr[1] if f.arr else 0
+            cov = 0
+            for lo, l in f.ranges:
+                cov |= mask(l) << (lo + sh)
+            a += [cov & m, ~cov & m]
+    return list(dict.fromkeys(a))
+
+
+def field_values(f: Field, full_w):
+    if f.enum is not None:
+        return list(f.enum.discs)
+    if f.w <= full_w:
+        return list(range(1 << f.w))
+    return small_alpha(f.w)
+
+
+def lit(xs):
+    return "[" + ", ".join(hex(x) for x in xs) + "]"
+
+
+def const_tables_code(s: Struct, full_n=8, full_w=4):
+    """statics computed by the const evaluator from the generated const fns + the adapter method"""
+    S = s.name
+    n = s.n
+    st = list(range(1 << n)) if n <= full_n else state_alpha(s)
+    K = len(st)
+    o = []
+    rows = []
+    o.append(f"const CT_{S}_ST: [u128; {K}] = {lit(st)};")
+    NEW = f"{S}::new_with_raw_value({base_new(n, f'CT_{S}_ST[i]')})"
+    o.append(f"static CT_{S}_RAW: [u128; {K}] = {{ let mut t = [0u128; {K}]; let mut i = 0; while i < {K} {{ t[i] = {base_val(n, NEW + '.raw_value()')}; i += 1; }} t }};")
+    rows.append(f'regmc::ConstTable {{ kind: "raw", f: 0, idx: 0, states: &CT_{S}_ST, values: &[], table: &CT_{S}_RAW, args: &[] }}')
+    o.append(f"static CT_{S}_ZERO: [u128; 1] = [{base_val(n, S + '::ZERO.raw_value()')}];")
+    rows.append(f'regmc::ConstTable {{ kind: "zero", f: 0, idx: 0, states: &[], values: &[], table: &CT_{S}_ZERO, args: &[] }}')
+    if s.default is not None:
+        o.append(f"#[allow(deprecated)] static CT_{S}_DEF: [u128; 2] = [{base_val(n, S + '::DEFAULT.raw_value()')}, {base_val(n, S + '::new().raw_value()')}];")
+        rows.append(f'regmc::ConstTable {{ kind: "default", f: 0, idx: 0, states: &[], values: &[], table: &CT_{S}_DEF, args: &[] }}')
+    for fi, f in enumerate(s.fields):
+        cnt = f.arr[0] if f.arr else 1
+        idxs = sorted({0, cnt - 1, cnt // 2})
+        for idx in idxs:
+            ia = f"{idx}" if f.arr else ""
+            ia2 = f"{idx}, " if f.arr else ""
+            if f.readable:
+                call = f"o.{f.name}({ia})"
+                o.append(f"static CT_{S}_GET_{fi}_{idx}: [u128; {K}] = {{ let mut t = [0u128; {K}]; let mut i = 0; while i < {K} {{ let o = {NEW}; t[i] = {from_val(f, call)}; i += 1; }} t }};")
+                rows.append(f'regmc::ConstTable {{ kind: "get", f: {fi}, idx: {idx}, states: &CT_{S}_ST, values: &[], table: &CT_{S}_GET_{fi}_{idx}, args: &[] }}')
+            if f.writable:
+                vals = field_values(f, full_w)
+                if K * len(vals) > 16384:
+                    vals = vals[:max(1, 16384 // K)]
+                V = len(vals)
+                if idx == idxs[0]:
+                    o.append(f"const CT_{S}_V_{fi}: [u128; {V}] = {lit(vals)};")
+                tv = to_val(f, f"CT_{S}_V_{fi}[j]")
+                o.append(f"static CT_{S}_WITH_{fi}_{idx}: [u128; {K * V}] = {{ let mut t = [0u128; {K * V}]; let mut i = 0; while i < {K} {{ let o = {NEW}; let mut j = 0; "
+                         f"while j < {V} {{ t[i * {V} + j] = {base_val(n, f'o.with_{f.name}({ia2}{tv}).raw_value()')}; j += 1; }} i += 1; }} t }};")
+                rows.append(f'regmc::ConstTable {{ kind: "with", f: {fi}, idx: {idx}, states: &CT_{S}_ST, values: &CT_{S}_V_{fi}, table: &CT_{S}_WITH_{fi}_{idx}, args: &[] }}')
+    if s.has_builder:
+        slots = []
+        for f in s.fields:
+            if f.writable:
+                for _ in range(f.arr[0] if f.arr else 1):
+                    slots.append(field_values(f, 2) if f.enum is None else list(f.enum.discs))
+        A = len(slots)
+        tuples = []
+        mx = max([len(v) for v in slots] + [1])
+        for j in range(mx):
+            tuples.append([v[(j + i) % len(v)] for i, v in enumerate(slots)])
+            tuples.append([v[j % len(v)] for v in slots])
+        tuples = [list(t) for t in dict.fromkeys(tuple(t) for t in tuples)]
+        Rn = len(tuples)
+        if A > 0:
+            o.append(f"const CT_{S}_ARGS: [[u128; {A}]; {Rn}] = [" + ", ".join(lit(t) for t in tuples) + "];")
+        chain, k = [], 0
+        for f in s.fields:
+            if not f.writable:
+                continue
+            if f.arr:
+                elems = ", ".join(to_val(f, f"CT_{S}_ARGS[i][{k + j}]") for j in range(f.arr[0]))
+                chain.append(f".with_{f.name}([{elems}])")
+                k += f.arr[0]
+            else:
+                chain.append(f".with_{f.name}({to_val(f, f'CT_{S}_ARGS[i][{k}]')})")
+                k += 1
+        built = base_val(n, f"{S}::builder(){''.join(chain)}.build().raw_value()")
+        o.append(f"static CT_{S}_BUILD: [u128; {Rn}] = {{ let mut t = [0u128; {Rn}]; let mut i = 0; while i < {Rn} {{ t[i] = {built}; i += 1; }} t }};")
+        args = "&[" + ", ".join(f"&{lit(t)}" for t in tuples) + "]"
+        rows.append(f'regmc::ConstTable {{ kind: "build", f: 0, idx: 0, states: &[], values: &[], table: &CT_{S}_BUILD, args: {args} }}')
+    method = "  fn const_tables(&self) -> Vec<regmc::ConstTable> { vec![\n    " + ",\n    ".join(rows) + "\n  ] }"
+    return "\n".join(o), method
+
+
+def enum_const_tables_code(ed, full_n=8):
+    E, n = ed.name, ed.n
+    if n <= full_n:
+        xs = list(range(1 << n))
+    else:
+        m = mask(n)
+        xs = alpha(n)
+        for d in ed.discs:
+            xs += [d, (d + 1) & m, (d - 1) & m]
+        xs = list(dict.fromkeys(xs))
+    K = len(xs)
+    idx = " ".join(f"{E}::V{d:x} => {i}u128," for i, d in enumerate(ed.discs))
+    if ed.exhaustive != 'true':
+        enc = f"match r {{ Ok(e) => (match e {{ {idx} }}), Err(y) => regmc::ERR_FLAG | (y as u128) }}"
+    else:
+        enc = f"match r {{ {idx} }}"
+    V = len(ed.discs)
+    o = [f"const CT_{E}_X: [u128; {K}] = {lit(xs)};",
+         f"static CT_{E}_FROM: [u128; {K}] = {{ let mut t = [0u128; {K}]; let mut i = 0; while i < {K} {{ let r = {E}::new_with_raw_value({base_new(n, f'CT_{E}_X[i]')}); t[i] = {enc}; i += 1; }} t }};",
+         f"const CT_{E}_I: [u128; {V}] = {lit(list(range(V)))};",
+         f"static CT_{E}_TO: [u128; {V}] = [" + ", ".join(base_val(n, f"{E}::V{d:x}.raw_value()") for d in ed.discs) + "];"]
+    method = (f"  fn const_tables(&self) -> Vec<regmc::ConstTable> {{ vec![\n"
+              f'    regmc::ConstTable {{ kind: "enum_from", f: 0, idx: 0, states: &CT_{E}_X, values: &[], table: &CT_{E}_FROM, args: &[] }},\n'
+              f'    regmc::ConstTable {{ kind: "enum_to", f: 0, idx: 0, states: &CT_{E}_I, values: &[], table: &CT_{E}_TO, args: &[] }},\n  ] }}')
+    return "\n".join(o), method
 
 
 def twin_val(f: Field, e):
@@ -420,14 +568,16 @@ def spec_struct(s: Struct):
     }
 
 
-SHARD_PRELUDE = """#![allow(dead_code, unused_imports, unused_parens, unused_variables, unused_mut, non_camel_case_types, non_upper_case_globals, unreachable_patterns, unreachable_code, clippy::all)]
+SHARD_PRELUDE = """#![allow(long_running_const_eval)]
+#![allow(dead_code, unused_imports, unused_parens, unused_variables, unused_mut, non_camel_case_types, non_upper_case_globals, unreachable_patterns, unreachable_code, clippy::all)]
 use arbitrary_int::*;
 use bitbybit::{bitenum, bitfield};
 """
 
 
-def enum_adapter(ed: EnumDef):
+def enum_adapter(ed: EnumDef, ctab=False):
     E = ed.name
+    statics, ctm = enum_const_tables_code(ed) if ctab else ("", "")
     n = ed.n
     idx = " ".join(f"{E}::V{d:x} => {i}u128," for i, d in enumerate(ed.discs))
     res = ed.exhaustive != 'true'
@@ -437,8 +587,10 @@ def enum_adapter(ed: EnumDef):
         enc = f"match r {{ {idx} }}"
     arms = " ".join(f"{i} => {base_val(n, f'{E}::V{d:x}.raw_value()')}," for i, d in enumerate(ed.discs))
     first = f"{E}::V{ed.discs[0]:x}"
-    return f"""pub struct EM_{E};
+    return f"""{statics}
+pub struct EM_{E};
 impl regmc::EnumMachine for EM_{E} {{
+{ctm}
   fn name(&self) -> &'static str {{ "{E}" }}
   fn from_raw(&self, x: u128) -> u128 {{ let r = {E}::new_with_raw_value({base_new(n, 'x')}); {enc} }}
   fn to_raw(&self, i: usize) -> u128 {{ match i {{ {arms} _ => panic!("harness: no such variant") }} }}
@@ -453,11 +605,11 @@ def enum_spec(ed: EnumDef):
             "text": enum_decl(ed).replace("\n", " ").replace("    ", " ")}
 
 
-def enum_shard_source(eds):
+def enum_shard_source(eds, ctab=False):
     out = [SHARD_PRELUDE]
     for ed in eds:
         out.append(enum_decl(ed, derive_debug=True))
-        out.append(enum_adapter(ed))
+        out.append(enum_adapter(ed, ctab=ctab))
     out.append("pub fn machines() -> Vec<Box<dyn regmc::Machine>> { vec![] }")
     out.append("pub fn enums() -> Vec<Box<dyn regmc::EnumMachine>> { vec![")
     for ed in eds:
